@@ -93,7 +93,13 @@ def cfg_C01(tier, rng):
                  consts=dict(MaxQ=1, MaxLevel=6 if tier == QUICK else 8),
                  variants=[dict(variant='api', pool='chars')],
                  random=dict(count=150 if tier == QUICK else 1500, length=12,
-                             family=lambda r, kk: gc.family_f3(r, kk, nmin=5, nmax=9)))]
+                             family=lambda r, kk: gc.family_f3(r, kk, nmin=5, nmax=9))),
+            # the same guard text on several transitions whose values differ (time predicates relative to the source)
+            dict(name='sametext', charts=gc.family_sametext(rng, 10 if tier == QUICK else 80),
+                 consts=dict(MaxQ=1, MaxClk=3 if tier == QUICK else 4, Advances={1, 2}, MaxLevel=6 if tier == QUICK else 8),
+                 variants=[dict(variant='api')],
+                 random=dict(count=60 if tier == QUICK else 600, length=16, advances=(1, 2),
+                             family=lambda r, kk: gc.family_sametext(r, kk)))]
 
 
 def cfg_C04(tier, rng):
